@@ -50,7 +50,15 @@ func (fc *FnCtx) doCall(res ssa.Value, c *ssa.CallCommon, in ssa.Instruction) {
 		if resType.Len() == 0 {
 			return mkVal(res.Type(), nil)
 		}
-		rv := fc.freshVal(res.Name(), res.Type())
+		// (the result of a call is about to be described by the callee's postconditions - `sliceoff(ret0) ==
+		// sliceoff(ip) + 12` - so its offsets must not be normalised to a literal 0: that made the IPv4-mapped case of
+		// net.IP.To4 infeasible and a wrong SVCBIPv4Hint.pack verify)
+		rv := fc.mergeVal(res.Name(), res.Type())
+		if !fc.keepStrOffsets {
+			// strings are immutable values: placing an unknown string at offset 0 of its array loses nothing, unless the
+			// callee's contract speaks about where the result lies (issub/start)
+			normaliseStrOffsets(res.Type(), rv.C)
+		}
 		fc.noAliasLocal(rv)
 		fc.recordExisting(rv)
 		return rv
@@ -189,6 +197,12 @@ func (fc *FnCtx) staticCall(res ssa.Value, f *ssa.Function, c *ssa.CallCommon, i
 		return
 	}
 	con.Used = true
+	fc.keepStrOffsets = false
+	for _, cl := range con.Ensures {
+		if strings.Contains(cl.Src, "issub(") || strings.Contains(cl.Src, "start(") {
+			fc.keepStrOffsets = true
+		}
+	}
 	if con.Kind == "func" {
 		if fc.calleeContracts == nil {
 			fc.calleeContracts = map[string]bool{}
@@ -651,4 +665,23 @@ func (fc *FnCtx) familyAppend(res ssa.Value, f *family, s Val, et types.Type, n 
 		fc.heapSet(&fc.cur, hn, hs, fmt.Sprintf("(store %s %s %s)", cur, c, R))
 	}
 	fc.setVal(res, rv)
+}
+
+func normaliseStrOffsets(t types.Type, comps []string) {
+	switch kindOf(t) {
+	case KStr:
+		comps[1] = "0"
+	case KStruct:
+		st := t.Underlying().(*types.Struct)
+		for i := 0; i < st.NumFields(); i++ {
+			lo, hi, ft := fieldRange(t, i)
+			normaliseStrOffsets(ft, comps[lo:hi])
+		}
+	case KTuple:
+		tu := t.Underlying().(*types.Tuple)
+		for i := 0; i < tu.Len(); i++ {
+			lo, hi, ft := fieldRange(t, i)
+			normaliseStrOffsets(ft, comps[lo:hi])
+		}
+	}
 }
